@@ -1,7 +1,10 @@
 #!/bin/sh
-# usage: tools/mkwt.sh <dir>   - scratch git worktree of /repo HEAD with the built native modules copied in
+# usage: tools/mkwt.sh <dir>   - scratch git worktree of /repo HEAD with native modules built from the tree's own sources copied in
+# (the git-ignored .so files lying in /repo predate the source fixes to cRepCode.pyx / LISRepCode.cpp)
 set -e
 d="$1"
 git -C /repo worktree add -f --detach "$d" HEAD >/dev/null 2>&1
 cp /repo/src/TotalDepth/LIS/core/*.so "$d/src/TotalDepth/LIS/core/"
+b=$(cd /verif && /venv/bin/python -c "import sys; sys.path.insert(0, '/verif'); from tdv.core import native; print(native.build('plain'))" 2>/dev/null | tail -1) || b=""
+if [ -n "$b" ] && [ -d "$b" ]; then cp "$b"/*.so "$d/src/TotalDepth/LIS/core/"; fi
 echo "$d"
